@@ -79,6 +79,7 @@ type actorLine struct {
 	Status string          `json:"status"`
 	AT     int             `json:"at"`
 	Note   string          `json:"note"`
+	Reask  int64           `json:"reask"` // autoplay2: ms (since the first delivery) at which the second request was delivered
 }
 
 func cloneGS(gs *pokerface.GameState) *pokerface.GameState {
@@ -369,6 +370,58 @@ func cmdActors(args []string) int {
 			}
 		}
 	}
+	// ---- asked again in the same betting round after acting himself: the thinking time starts afresh (C19)
+	type reask struct {
+		ad   *recAdapter
+		hand PHand
+		at   int64
+	}
+	var reasks []reask
+	for k := 0; k < 3; k++ {
+		opts := pokerface.NewStardardGameOptions()
+		opts.Deck = pokerface.NewStandardDeckCards()
+		opts.Blind = pokerface.BlindSetting{SB: 1, BB: 2}
+		opts.Players = []*pokerface.PlayerSetting{{Bankroll: int64(20 + k), Positions: []string{"dealer", "sb"}}, {Bankroll: 30, Positions: []string{"bb"}}}
+		g, err := be.CreateGame(opts)
+		if err != nil {
+			break
+		}
+		g, _ = be.ReadyForAll(g)
+		g, _ = be.PayBlinds(g)
+		g, _ = be.ReadyForAll(g) // preflop: the dealer / small blind (index 0) is asked
+		if g == nil || g.Status.CurrentEvent != "RoundStarted" || g.Status.CurrentPlayer != 0 {
+			break
+		}
+		s1 := cloneGS(g)
+		s1.UpdatedAt = 5000
+		g2, err := be.Call(g)
+		if err != nil {
+			break
+		}
+		g3, err := be.Raise(g2, 6) // the big blind raises: index 0 is asked again in the same round
+		if err != nil || g3.Status.CurrentPlayer != 0 {
+			break
+		}
+		s2 := cloneGS(g3)
+		s2.UpdatedAt = 6000
+		ids := []string{"b0", "b1"}
+		ad := &recAdapter{ids: ids, t0: time.Now()}
+		a := actor.NewActor()
+		a.SetAdapter(ad)
+		pr := actor.NewPlayerRunner("b0")
+		a.SetRunner(pr)
+		ad.gs = s1
+		a.UpdateTableState(tableFor(s1, ids, 1))
+		time.Sleep(300 * time.Millisecond)
+		pr.Call() // the player answers the first request himself
+		time.Sleep(200 * time.Millisecond)
+		at := time.Since(ad.t0).Milliseconds()
+		ad.gs = s2
+		a.UpdateTableState(tableFor(s2, ids, 1))
+		h := rec.projectHand(s2)
+		h.Gid, h.Upd = 0, 0
+		reasks = append(reasks, reask{ad: ad, hand: h, at: at})
+	}
 	// the action time of the timed cases is one second
 	time.Sleep(650 * time.Millisecond)
 	early := make([][][]interface{}, len(timedCases))
@@ -385,6 +438,10 @@ func cmdActors(args []string) int {
 			l.Res = applyCall(be, cloneGS(tc.gs), tc.me, []interface{}{calls[0][0], calls[0][1]})
 		}
 		emit(l)
+	}
+	time.Sleep(300 * time.Millisecond)
+	for _, ra := range reasks {
+		emit(actorLine{Ev: "autoplay2", Hand: ra.hand, Me: 0, MyID: "b0", Calls: ra.ad.snapshot(), Res: "none", Status: "running", AT: 1, Reask: ra.at})
 	}
 	w.Flush()
 	f.Close()
